@@ -770,13 +770,21 @@ def decorate_with_checker(func: CallableT) -> CallableT:
                     resolved_kwargs["OLD"] = await _capture_old_async(
                         snapshots=snapshots, resolved_kwargs=resolved_kwargs
                     )
+            finally:
+                in_progress.discard(id_func)
 
-                # Ideally, we would catch any exception here and strip the checkers from the traceback.
-                # Unfortunately, this can not be done in Python 3, see
-                # https://stackoverflow.com/questions/44813333/how-can-i-elide-a-function-wrapper-from-the-traceback-in-python-3
-                result = await func(*args, **kwargs)
+            # The function is not marked as in progress while its body is executing so that the (mutually)
+            # recursive calls made by the body are checked as well. Only the calls made while the contracts
+            # themselves are being checked go unchecked.
 
-                if postconditions:
+            # Ideally, we would catch any exception here and strip the checkers from the traceback.
+            # Unfortunately, this can not be done in Python 3, see
+            # https://stackoverflow.com/questions/44813333/how-can-i-elide-a-function-wrapper-from-the-traceback-in-python-3
+            result = await func(*args, **kwargs)
+
+            if postconditions:
+                in_progress.add(id_func)
+                try:
                     resolved_kwargs["result"] = result
 
                     violation_error = await _assert_postconditions_async(
@@ -784,10 +792,10 @@ def decorate_with_checker(func: CallableT) -> CallableT:
                     )
                     if violation_error:
                         raise violation_error
+                finally:
+                    in_progress.discard(id_func)
 
-                return result
-            finally:
-                in_progress.discard(id_func)
+            return result
 
     else:
 
@@ -848,13 +856,21 @@ def decorate_with_checker(func: CallableT) -> CallableT:
                     resolved_kwargs["OLD"] = _capture_old(
                         snapshots=snapshots, resolved_kwargs=resolved_kwargs, func=func
                     )
+            finally:
+                in_progress.discard(id_func)
 
-                # Ideally, we would catch any exception here and strip the checkers from the traceback.
-                # Unfortunately, this can not be done in Python 3, see
-                # https://stackoverflow.com/questions/44813333/how-can-i-elide-a-function-wrapper-from-the-traceback-in-python-3
-                result = func(*args, **kwargs)
+            # The function is not marked as in progress while its body is executing so that the (mutually)
+            # recursive calls made by the body are checked as well. Only the calls made while the contracts
+            # themselves are being checked go unchecked.
 
-                if postconditions:
+            # Ideally, we would catch any exception here and strip the checkers from the traceback.
+            # Unfortunately, this can not be done in Python 3, see
+            # https://stackoverflow.com/questions/44813333/how-can-i-elide-a-function-wrapper-from-the-traceback-in-python-3
+            result = func(*args, **kwargs)
+
+            if postconditions:
+                in_progress.add(id_func)
+                try:
                     resolved_kwargs["result"] = result
 
                     violation_error = _assert_postconditions(
@@ -864,10 +880,10 @@ def decorate_with_checker(func: CallableT) -> CallableT:
                     )
                     if violation_error:
                         raise violation_error
+                finally:
+                    in_progress.discard(id_func)
 
-                return result
-            finally:
-                in_progress.discard(id_func)
+            return result
 
     # Copy __doc__ and other properties so that doctests can run
     functools.update_wrapper(wrapper=wrapper, wrapped=func)
